@@ -1,6 +1,7 @@
 package agent
 
 import (
+	"os"
 	"bytes"
 	"context"
 	"crypto/rand"
@@ -160,6 +161,9 @@ func TestVP_C04_Ciphertext(t *testing.T) {
 	rapid.Check(t, func(rt *rapid.T) {
 		serial++
 		kind := rapid.SampledFrom([]string{"tcp", "tcp", "forward", "udp", "udp-retry-after-open-timeout", "udp-open-rejected"}).Draw(rt, "kind")
+		if k := os.Getenv("VP_C04_KIND"); k != "" {
+			kind = k // developer aid: concentrate a run on one tunnel kind
+		}
 		shape := rapid.SampledFrom([]string{"chain1", "chain2", "chain3", "diamond"}).Draw(rt, "shape")
 		m := vpNewMesh(fmt.Sprintf("%s/m%d", base, serial))
 		defer m.stop()
